@@ -212,6 +212,22 @@ def check_coercion(item):
         r = call(fn, t)
         if r != base and not (is_number(r) and is_number(base) and abs(r['result'] - base['result']) <= 1e-12 * max(1, abs(base['result']))):
             out.append(('%s("%s") vs %s(%r): numeric text' % (fn, t, fn, x), None, repr(base), repr(r)))
+    # other spellings of numeric text (what int() / float() read): exponent with E or e, explicit sign, leading zeros,
+    # no digit before / after the point; each compared with the function on the number the text spells
+    alt = ['%.6E' % x, '%.6e' % x, ('+' if x >= 0 else '-') + repr(abs(x)), ('-00' if x < 0 else '00') + repr(abs(float(x)))]
+    if 0 < abs(x) < 1 and 'e' not in repr(abs(x)):
+        alt.append(('-' if x < 0 else '') + repr(abs(x))[1:])           # .5
+    if float(x) == int(x) and abs(x) < 1e15:
+        alt.append(str(int(x)) + '.')                                    # 5.
+        alt.append('%dE0' % int(x))
+    for t in alt:
+        try:
+            num = float(t)
+        except ValueError:
+            continue
+        r, want = call(fn, t), call(fn, num)
+        if r != want and not (is_number(r) and is_number(want) and abs(r['result'] - want['result']) <= 1e-12 * max(1, abs(want['result']))):
+            out.append(('%s("%s") vs %s(%r): numeric text' % (fn, t, fn, num), None, repr(want), repr(r)))
     for b, v in ((True, 1), (False, 0)):
         rb, rv = call(fn, b), call(fn, v)
         if rb != rv:
